@@ -161,7 +161,11 @@ def run(ctx):
     B, N, T = ExtVal("xlrd.XL_CELL_BOOLEAN"), ExtVal("xlrd.XL_CELL_NUMBER"), ExtVal("xlrd.XL_CELL_TEXT")
     for desc, xls_args, xlsx_arg, want in (("boolean true", (1, B), True, "TRUE"), ("boolean false", (0, B), False, "FALSE"), ("integral float", (3.0, N), 3.0, "3"),
                                            ("large integral float", (1234567890.0, N), 1234567890.0, "1234567890"), ("decimal", (3.5, N), 3.5, "3.5"),
-                                           ("text with nbsp", ("a\xa0b", T), "a\xa0b", "a b"), ("plain text", ("abc", T), "abc", "abc")):
+                                           ("text with nbsp", ("a\xa0b", T), "a\xa0b", "a b"), ("plain text", ("abc", T), "abc", "abc"),
+                                           # decimals keep their shortest round-trip form (what a text container would spell)
+                                           ("one third", (1 / 3, N), 1 / 3, "0.3333333333333333"), ("two thirds", (2 / 3, N), 2 / 3, "0.6666666666666666"),
+                                           ("0.1 + 0.2", (0.1 + 0.2, N), 0.1 + 0.2, "0.30000000000000004"), ("coordinate", (-1.2345678901234567, N), -1.2345678901234567, "-1.2345678901234567"),
+                                           ("small", (1e-07, N), 1e-07, "1e-07"), ("negative integral", (-4.0, N), -4.0, "-4"), ("zero", (0.0, N), 0.0, "0")):
         it.reset([])
         a = it.call_function(xv, [xls_args[0], xls_args[1], 0], {}, None, xv.node)
         it.reset([])
